@@ -23,8 +23,8 @@ RULE = ('catalogue-exhaustive: every text codec of the catalogue (UTF-8 / '
         'text (forces the appended newline). Non-trivial = spelling differs '
         'from the canonical name or codec emits a BOM; distinct = (spelling, '
         'line endings, text).')
-FLOOR = {'quick': 3000, 'thorough': 50000}
-REQUIRED_REACH = ['strip_bom', 'get_newline_for_type']
+FLOOR = {'quick': 3000, 'thorough': 30000}
+REQUIRED_REACH = ['utils/text.py:']
 REQUIRED_COUNTERS = ['spellings', 'newline_helper_checks',
                      'roundtrips_checked', 'bom_emitting_spellings']
 ASSUMPTIONS = [
@@ -97,8 +97,22 @@ def doc_for(spelling, le, t, where):
     ch = {'encoding': spelling if where == 'change' else None,
           'preamble': pre, 'meta': dict(meta),
           'files': [{'encoding': None, 'meta': dict(meta), 'diff': diff}]}
-    return {'encoding': spelling if where == 'main' else 'utf-8',
-            'changes': [ch]}
+    doc = {'encoding': spelling if where == 'main' else 'utf-8',
+           'changes': [ch]}
+    if where != 'main':
+        # content that inherits the MAIN codec comes first, so newline bytes
+        # of one codec are in play before the other codec's container opens
+        doc['preamble'] = {'text': 'main\npreamble', 'encoding': None,
+                           'indent': 2, 'line_endings': le, 'mimetype': None,
+                           'explicit': True}
+        doc['meta'] = {'obj': {'main': 1}, 'encoding': None}
+        # and a second change back in the main codec afterwards
+        doc['changes'].append({'encoding': None, 'preamble': {
+            'text': 'after\n', 'encoding': None, 'indent': 4,
+            'line_endings': le, 'mimetype': None, 'explicit': True},
+            'files': [{'encoding': None,
+                       'meta': {'obj': {'k': 'v'}, 'encoding': None}}]})
+    return doc
 
 
 def check_doc(doc, obs, case):
